@@ -441,6 +441,91 @@ def measure(cases, impl_out, gcases, rcases, rej_stats):
     return d
 
 
+def gen_array_facts(ctx):
+    """T-gen (AST facts, after props/C14): statement ORDER inside Array::Insert(index, count, item) and the two nothrow pvAddBackGrow
+    overloads, read off the clang AST of the current headers and written to coq/Gen_ArrayFacts.v as lists of strings.  FactsProofs.v
+    pins them (reflexivity) and InsertGlue.v interprets the copy branch of Insert from the list, so `the ItemHandler temporary is
+    constructed before pvGrow is called` and `the alias test is index <= itemIndex < initCount` are part of the proved statement."""
+    import sys, json as _json
+    sys.path.insert(0, os.path.join(ctx.root, 'tools'))
+    import cxx2coq
+    out = os.path.join(ctx.cdir, 'Gen_ArrayFacts.v')
+    sw = cxx2coq.skip_wrappers
+    def strip(n):
+        n = sw(n)
+        while n.get('kind') in ('ImplicitCastExpr', 'ParenExpr', 'CXXStaticCastExpr', 'CXXFunctionalCastExpr', 'CXXBindTemporaryExpr',
+                                'MaterializeTemporaryExpr', 'ExprWithCleanups') and n.get('inner'):
+            n = sw(n['inner'][-1] if n['kind'] == 'CXXFunctionalCastExpr' else n['inner'][0])
+        return n
+    def expr(n):
+        n = strip(n); k = n.get('kind')
+        if k == 'BinaryOperator': return '(%s %s %s)' % (expr(n['inner'][0]), n['opcode'], expr(n['inner'][1]))
+        if k == 'UnaryOperator': return '%s%s' % (n['opcode'], expr(n['inner'][0]))
+        if k == 'DeclRefExpr': return n['referencedDecl']['name']
+        if k == 'MemberExpr': return n['name']
+        if k == 'IntegerLiteral': return n['value']
+        if k in ('CallExpr', 'CXXMemberCallExpr', 'CXXOperatorCallExpr'): return call(n)
+        if k == 'CXXConstructExpr' or k == 'CXXTemporaryObjectExpr':
+            return '%s{%s}' % ('ctor', ', '.join(expr(a) for a in n.get('inner', [])))
+        if k == 'ConditionalOperator': return '(%s ? %s : %s)' % tuple(expr(a) for a in n['inner'])
+        if k == 'ArraySubscriptExpr': return '%s[%s]' % (expr(n['inner'][0]), expr(n['inner'][1]))
+        return k
+    def call(n):
+        c = strip(n['inner'][0])
+        nm = c.get('name') or (c.get('referencedDecl') or {}).get('name') or expr(c)
+        return '%s(%s)' % (nm, ', '.join(expr(a) for a in n['inner'][1:]))
+    def stmt(st):
+        st0 = sw(st); k = st0.get('kind')
+        if k == 'DeclStmt':
+            v = [x for x in st0['inner'] if x.get('kind') == 'VarDecl'][0]
+            init = [x for x in v.get('inner', []) if isinstance(x, dict) and ('Expr' in x.get('kind', '') or x.get('kind', '').endswith('Literal') or x.get('kind', '').endswith('Operator'))]
+            return 'decl %s = %s' % (v['name'], expr(init[0]) if init else '-')
+        if k == 'IfStmt':
+            parts = st0['inner']
+            t = 'if %s { %s }' % (expr(parts[0]), '; '.join(stmts(parts[1])))
+            if len(parts) > 2: t += ' else { %s }' % '; '.join(stmts(parts[2]))
+            return t
+        if k == 'CXXTryStmt': return 'try { %s }' % '; '.join(stmts(st0['inner'][0]))
+        if k == 'ReturnStmt': return 'return'
+        if k in ('CallExpr', 'CXXMemberCallExpr', 'CXXOperatorCallExpr'): return call(st0)
+        if k == 'CompoundStmt': return '{ %s }' % '; '.join(stmts(st0))
+        return expr(st0)
+    def stmts(n):
+        n0 = sw(n)
+        return [stmt(x) for x in n0.get('inner', [])] if n0.get('kind') == 'CompoundStmt' else [stmt(n0)]
+    try:
+        cfg = {'tu': os.path.join(ctx.pdir, 'inst_guards.cpp'), 'filter': 'Array', 'class': 'Array', 'includes': [os.path.join(ctx.repo, 'include')]}
+        spec = cxx2coq.find_spec(cxx2coq.load_objs(cxx2coq.dump_ast(cfg, ctx.repo)), cfg)
+        def body_of(name, pred):
+            ds = [d for d in cxx2coq.method_decls(spec, name) if pred(d)]
+            if len(ds) != 1: raise cxx2coq.TranslationError('%s: %d candidate bodies' % (name, len(ds)))
+            return [x for x in ds[0]['inner'] if x.get('kind') == 'CompoundStmt'][0]
+        npar = lambda d: [p.get('name') for p in d.get('inner', []) if p.get('kind') == 'ParmVarDecl']
+        ins_body = body_of('Insert', lambda d: npar(d) == ['index', 'count', 'item'])
+        ins = stmts(ins_body)
+        ifs = [x for x in ins_body['inner'] if sw(x).get('kind') == 'IfStmt' and len(sw(x)['inner']) == 3]
+        if len(ifs) != 1: raise cxx2coq.TranslationError('Insert: the copy-or-direct if statement was not found exactly once')
+        ins_cond = expr(sw(ifs[0])['inner'][0]); ins_copy = stmts(sw(ifs[0])['inner'][1]); ins_direct = stmts(sw(ifs[0])['inner'][2])
+        abc = stmts(body_of('pvAddBackGrow', lambda d: len(npar(d)) == 2 and 'const' in d['type']['qualType'].split(',')[0] and 'itemBuffer' in _json.dumps(d)))
+        abm = stmts(body_of('pvAddBackGrow', lambda d: len(npar(d)) == 2 and 'itemIndex' in _json.dumps(d)))
+        def lst(name, items): return 'Definition %s : list string := [%s].\n' % (name, '; '.join('"%s"' % x.replace('"', "'") for x in items))
+        txt = ('(* GENERATED by props/C05/prop.py (gen_array_facts) from the clang AST of inst_guards.cpp -- do not edit *)\n'
+               'From Coq Require Import List String.\nImport ListNotations.\nLocal Open Scope string_scope.\n\n'
+               '(* the statements of Array::Insert(size_t index, size_t count, const Item& item), in source order *)\n' + lst('array_insert_stmts', ins) +
+               '(* its last statement `if (COND) { COPY BRANCH } else { DIRECT BRANCH }` taken apart *)\n'
+               'Definition array_insert_condition : string := "%s".\n' % ins_cond + lst('array_insert_copy_branch', ins_copy) + lst('array_insert_direct_branch', ins_direct) +
+               '(* ... of Array::pvAddBackGrow(const Item& item, std::true_type) *)\n' + lst('add_back_grow_copy_stmts', abc) +
+               '(* ... of Array::pvAddBackGrow(Item&& item, std::true_type) *)\n' + lst('add_back_grow_move_stmts', abm))
+        if not os.path.exists(out) or open(out).read() != txt:
+            open(out, 'w').write(txt)
+        ctx.tie_obligations.append({'name': 'translate Gen_ArrayFacts (statement order of Array::Insert / pvAddBackGrow)', 'ok': True})
+        return True
+    except Exception as e:
+        if os.path.exists(out): os.remove(out)
+        ctx.tie_obligations.append({'name': 'translate Gen_ArrayFacts', 'ok': False, 'error': str(e)[:400]})
+        return False
+
+
 def build_harnesses(ctx):
     fast = ['-O0', '-g0'] if ctx.quick() else ['-O0', '-g1']   # (compile time: ~16 container types x 40 ops per element kind; -O1 + sanitizers costs 5x)
     jobs = [('harness.cpp', 'harness_' + e, ['-DELEM=%d' % i] + fast) for i, e in enumerate(ELEMS)]
@@ -493,6 +578,8 @@ def run(ctx):
                         'index arithmetic in nat: no size_t overflow (guaranteed by MOMO_ASSERT(capacity >= initCount + count))',
                         'iterator-range inserts take ranges outside the container (documented precondition, MOMO_ASSERT in Array::Insert)']
     ctx.regen(GEN)
+    if not gen_array_facts(ctx):
+        ctx.stage('regen', False, 'Array facts extraction failed: ' + str(ctx.tie_obligations[-1].get('error')))
     ctx.prove()
     hs = build_harnesses(ctx)
     if hs is None:
